@@ -32,6 +32,7 @@ class Case:
         self.flags = list(flags)
         self.label = label
         self.seed = None        # schedule seed: random holding of threads at system-call entries
+        self.zeros = None       # [(s, e)]: ranges WRITTEN as zero bytes (allocated data that happens to be all zero, not holes)
         self.xattr = None       # {name: value}: user extended attributes of the source (a large one lives in a block of its own,
                                 # which st_blocks counts although it holds no file data)
         self.prealloc = None    # [(offset, length)]: regions reserved with fallocate and then written WITHOUT a sync, so that
@@ -39,7 +40,7 @@ class Case:
 
     def key(self):
         return (self.size, tuple(self.data), self.driver, self.workers, self.bs, self.reflink, self.prior,
-                tuple(self.plan), tuple(self.flags), getattr(self, 'seed', None), tuple(self.prealloc or ()), tuple(sorted((self.xattr or {}).keys())))
+                tuple(self.plan), tuple(self.flags), getattr(self, 'seed', None), tuple(self.prealloc or ()), tuple(sorted((self.xattr or {}).keys())), tuple(self.zeros or ()))
 
     def describe(self):
         return dict(size=self.size, data=self.data if len(self.data) < 8 else "%d ranges" % len(self.data),
@@ -67,6 +68,14 @@ def materialise(case, d, idx):
             os.close(fd)          # no fsync
     else:
         fsutil.make_file(src, case.size, case.data, tag=idx + 1)
+    if case.zeros:
+        fd = os.open(src, os.O_WRONLY)
+        try:
+            for (zs, ze) in case.zeros:
+                os.pwrite(fd, b"\0" * (ze - zs), zs)
+            os.fsync(fd)
+        finally:
+            os.close(fd)
     if case.xattr:
         for a, v in case.xattr.items():
             os.setxattr(src, a, v)
